@@ -427,8 +427,9 @@ def run(ctx):
         'analysed by forward dataflow over its structured CFG, either raises or has exhausted self.tokens and returns a '
         'falsy value on every path; parse_sql returns only a parse result proven non-None and edits the text before '
         'lexing only by an anchored whitespace/semicolon suffix strip; sly computes defaulted states only for '
-        'single-reduction rows (evaluated as a truth table from its source). NOT decided: that sly\'s Parser.parse '
-        'implements LR parsing correctly (trusted driver).')
+        'single-reduction rows (evaluated as a truth table from its source); the panic-mode recovery of sly\'s driver throws away the '
+        'offending token and every pushed-back token once the stack is rolled back to the start, and gives up at end of input. '
+        'NOT decided: that the shift/reduce loop of sly\'s Parser.parse implements LR parsing correctly (trusted driver).')
     ctx.not_decided = ['correctness of the LR driver loop in sly/yacc.py Parser.parse (trusted)']
     ctx.assumptions = ["sly's Parser.parse is an LR(1) driver with the panic-mode recovery read in DESIGN.md C05",
                        'sa/lalr.py tables equal sly\'s (development-time cross-check, C03 resolver conformance)']
